@@ -2,6 +2,8 @@ import GridVerif.Props.C07
 import GridVerif.Props.C07.Interp
 import GridVerif.Props.C07.DefaultRgrid
 import GridVerif.Props.C07.Defaults
+import GridVerif.Props.C07.GenInit
+import GridVerif.Props.C07.AimRoute
 
 #print axioms GridVerif.C07.molgrid_shape
 #print axioms GridVerif.C07.molgrid_slices
@@ -49,3 +51,8 @@ import GridVerif.Props.C07.Defaults
 #print axioms GridVerif.C07.signature_defaults_pinned
 #print axioms GridVerif.C07.fromPruned_default_sectors
 #print axioms GridVerif.C07.save_site_pinned
+#print axioms GridVerif.C07.gen_aim_eq_model
+#print axioms GridVerif.C07.aim_passed_through_every_route
+#print axioms GridVerif.C07.gen_init_weights_any_aim_array
+#print axioms GridVerif.C07.gen_init_weights_any_aim_callable
+#print axioms GridVerif.C07.gen_init_one_atom
